@@ -37,6 +37,8 @@ YOUR TASK: produce TWO different, independent, realistic changes to the eaopack 
 IMPORTANT: never use `git stash` (the stash is shared between the parallel worktrees of this repository); switch between the clean and the changed tree with `git diff -- eaopack > my.patch; git checkout -- eaopack; git apply my.patch`. Other engineers have ALREADY produced the following changes for this property. Do NOT repeat them or close variants of them (same line / same mechanism); find different ones. Also do not simply revert one of the commits whose message starts with 'fix:' in `git log` (those defects are known). Look for aspects of the property's statement that none of the listed changes touches, less-travelled options of the classes involved (read the docstrings of ALL constructor arguments), convenience entry points (eaopack/io.py, serialization.py, stoch_lin_prog.py, network_graphs.py), and sequences of several calls on the same objects:
 {chr(10).join(prior)}
 
+At least one of your two changes should need the INTERPLAY OF TWO OPTIONAL FEATURES (e.g. own frequency + lifetime, periodicity + take, wacc + unequal steps, split + fixed window, scaled/structured wrapper + option of the wrapped asset, time zone + dates given in another form) or a SEQUENCE of several calls on the same objects to manifest.
+
 First read the relevant code (eaopack/*.py, about 4800 lines; tests/ shows typical use) to find good candidates. For each change X in (a, b) deliver in {W}/seeded_out/X/ :
   - patch.diff : `git diff -- eaopack` of exactly that change relative to the unmodified worktree (one change only);
   - demo.py    : a small stand-alone program demonstrating the breakage THROUGH THE PUBLIC API (build assets/portfolio/timegrid, set up, optimise, extract output, ... and check what the property says): it must print PASS and exit 0 on the unmodified code and print FAIL (with a short explanation/numbers) and exit 1 with the change applied. It must be runnable as `cd {W} && PYTHONPATH={W} /venv/bin/python seeded_out/X/demo.py` and must not depend on random seeds from the environment;
